@@ -87,6 +87,8 @@ class C04:
             return [rng.choice(alphabet) for _ in range(rng.randint(lo, hi))]
         for _ in range(nrand):
             pool = [rbytes(1, 3) for _ in range(3)]
+            if rng.random() < 0.3:
+                pool[0] = list(rng.choice([b"PATH", b"LD_LIBRARY_PATH", b"LIBRARY_PATH", b"CPATH", b"PKG_CONFIG_PATH", b"HOME", b"path"]))
             procs = [list(b"web"), list(b"worker")]
             ins = []
             for _ in range(rng.randint(3, 8)):
